@@ -1,7 +1,7 @@
 """dev helper: run one shard of a property module in-process.  usage: dbg_shard.py C02 '{"kind":"enum","i":0,"n":50}' [seed]"""
 import sys, time, json, faulthandler
 faulthandler.dump_traceback_later(int(__import__("os").environ.get("DBG_TIMEOUT", "120")), exit=True)
-sys.path.insert(0, '/verif'); sys.path.insert(0, '/repo/src')
+sys.path.insert(0, '/verif'); sys.path.insert(0, __import__('os').environ.get('PVS_REPO', '/repo') + '/src')
 from pvs.core.acc import Acc
 from pvs.core import runner
 mod = runner.load_module(sys.argv[1])
